@@ -76,3 +76,38 @@ Print Assumptions brotli_bit_reader_refines_bit_stream_bufio.
 Theorem brotli_bit_reader_refines_bit_stream_bytereader : bitreader_refines_bytereader.
 Proof. exact bitreader_refines_bytereader_holds. Qed.
 Print Assumptions brotli_bit_reader_refines_bit_stream_bytereader.
+
+(* brotli.Reader ITSELF at implementation level (Brotli/Impl.v: the full Reader state, Read, the four
+   steps, ReadPrefixCode, the label machine of readCommands with its three suspension states, the static
+   dictionary copy with transforms, Reset/Close; compared with the real Reader PER Read CALL - bytes, error
+   class, both offsets, a dump of the internal state - on both source paths: WBRIMPL). The statements are
+   those of the named lemmas (Brotli/ImplTop.v, ImplCmd.v, ImplPfx.v, ImplCodeX.v; listed in
+   Brotli/ImplThms.v), taken over verbatim:
+   - one STEP of the Reader, from a state related to a configuration of the RFC 7932 decoder of
+     Brotli/Spec.v, keeps that decoder's future: it ends with io.EOF exactly when the RFC decoder accepts,
+     fails exactly when it fails, the output only grows, and there is never a run-time panic;
+   - one call of readCommands, entered at the start or resumed in any suspension state, likewise;
+   - readPrefixCodes as a whole and ReadPrefixCode read the same bits as the RFC model and build decoders
+     for the same codes from ANY recycled storage.
+   OPEN (kept as a Definition, not claimed): the assembly over whole histories of Read calls
+   (brotli_impl_refines_rfc7932_statement) and the sufficiency of the model's loop budgets. *)
+From V Require Brotli.Impl Brotli.ImplTop Brotli.ImplCmd Brotli.ImplPfx Brotli.ImplCodeX Brotli.ImplThms.
+Theorem brotli_reader_step_keeps_the_rfc_decoders_future :
+  ltac:(let t := type of Brotli.ImplTop.run_step_ok in exact t).
+Proof. exact Brotli.ImplTop.run_step_ok. Qed.
+Print Assumptions brotli_reader_step_keeps_the_rfc_decoders_future.
+
+Theorem brotli_reader_read_commands_refines :
+  ltac:(let t := type of Brotli.ImplCmd.read_commands_ok in exact t).
+Proof. exact Brotli.ImplCmd.read_commands_ok. Qed.
+Print Assumptions brotli_reader_read_commands_refines.
+
+Theorem brotli_reader_read_prefix_codes_refines :
+  ltac:(let t := type of Brotli.ImplPfx.read_prefix_codes_refines in exact t).
+Proof. exact Brotli.ImplPfx.read_prefix_codes_refines. Qed.
+Print Assumptions brotli_reader_read_prefix_codes_refines.
+
+Theorem brotli_reader_read_prefix_code_refines :
+  ltac:(let t := type of Brotli.ImplCodeX.read_prefix_code_refines in exact t).
+Proof. exact Brotli.ImplCodeX.read_prefix_code_refines. Qed.
+Print Assumptions brotli_reader_read_prefix_code_refines.
